@@ -1,59 +1,5 @@
-import Sucds.Model.Serial
-import Sucds.Model.WaveletMatrix
-/-! Codecs of every serializable structure, in the field order of its `Serializable` impl. -/
-namespace Sucds
-open Codec
-
-/-- `isize`/`i64`: two's complement little endian -/
-def Codec.i64 : Codec Int where
-  put x := leBytes (x % 2^64).toNat 8
-  get s := if s.length < 8 then none else
-    let n := ofLe (s.take 8)
-    some (if n ≥ 2^63 then (n : Int) - 2^64 else (n : Int), s.drop 8)
-  size _ := 8
-
-/-- `Vec<S>` held as an `Array` -/
-def Codec.arr {α} (a : Codec α) : Codec (Array α) := iso (vec a) List.toArray Array.toList
-
-def R9Index.codec : Codec R9Index :=
-  iso (seq u64 (seq (arr u64) (seq (opt (arr u64)) (opt (arr u64)))))
-    (fun p => ⟨p.1, p.2.1, p.2.2.1, p.2.2.2⟩) (fun x => (x.len, x.pairs, x.sel1, x.sel0))
-
-def R9.codec : Codec R9 := iso (seq BV.codec R9Index.codec) (fun p => ⟨p.1, p.2⟩) (fun x => (x.bv, x.rs))
-
-def DAIndex.codec : Codec DAIndex :=
-  iso (seq (arr Codec.i64) (seq (arr u16) (seq (arr u64) (seq u64 Codec.bool))))
-    (fun p => ⟨p.1, p.2.1, p.2.2.1, p.2.2.2.1, p.2.2.2.2⟩)
-    (fun x => (x.blockInv, x.subInv, x.overflow, x.numPos, x.overOne))
-
-def DA.codec : Codec DA :=
-  iso (seq BV.codec (seq DAIndex.codec (seq (opt DAIndex.codec) (opt R9Index.codec))))
-    (fun p => ⟨p.1, p.2.1, p.2.2.1, p.2.2.2⟩) (fun x => (x.bv, x.s1, x.s0, x.r9))
-
-def EF.codec : Codec EF :=
-  iso (seq DA.codec (seq BV.codec (seq u64 u64)))
-    (fun p => ⟨p.1, p.2.1, p.2.2.1, p.2.2.2⟩) (fun x => (x.high, x.low, x.lowLen, x.univ))
-
-def SA.codec : Codec SA :=
-  iso (seq (opt EF.codec) (seq u64 (seq u64 Codec.bool)))
-    (fun p => ⟨p.1, p.2.1, p.2.2.1, p.2.2.2⟩) (fun x => (x.ef, x.numBits, x.numOnes, x.hasRank))
-
-def DacB.codec : Codec DacB :=
-  iso (seq (arr (arr u8)) (arr R9.codec)) (fun p => ⟨p.1, p.2⟩) (fun x => (x.data, x.flags))
-
-def DacO.codec : Codec DacO :=
-  iso (seq (arr CV.codec) (arr R9.codec)) (fun p => ⟨p.1, p.2⟩) (fun x => (x.data, x.flags))
-
-def PS.codec : Codec PS := iso EF.codec (fun e => ⟨e⟩) (fun p => p.ef)
-
-/-- layers of one backing kind; a layer of another kind cannot occur in a well-formed value -/
-def Lay.codec (k : Backing) : Codec Lay :=
-  match k with
-  | .r9 => iso R9.codec Lay.r9 (fun l => match l with | .r9 x => x | _ => default)
-  | .da => iso DA.codec Lay.da (fun l => match l with | .da x => x | _ => default)
-  | .bv => iso BV.codec Lay.bv (fun l => match l with | .bv x => x | _ => default)
-
-def WM.codec (k : Backing) : Codec WM :=
-  iso (seq (arr (Lay.codec k)) u64) (fun p => ⟨p.1, p.2⟩) (fun w => (w.layers, w.alphSize))
-
-end Sucds
+import Sucds.Gen.Codecs
+/-! The codecs of every serializable structure are generated from the Rust sources (`Sucds/Gen/Codecs.lean`, by
+    tools/gen_codecs.py): field order of `serialize_into`/`deserialize_from`, field types, `size_in_bytes`. The generic
+    `Option<S>`/`Vec<S>`/primitive impls of `src/serial.rs` and `src/serial/primitive.rs` are the hand-written
+    combinators of `Sucds/Model/Serial.lean`. -/
